@@ -659,6 +659,11 @@ func runCheck(id, tier string, pl plan) int {
 	if err := os.WriteFile(filepath.Join(evDir, id+".json"), b, 0o644); err != nil {
 		die(2, "write evidence: %v", err)
 	}
+	if tier == "thorough" {
+		// evidence/<id>.json is rewritten by every run; thorough runs are also kept per seed
+		_ = os.MkdirAll(filepath.Join(evDir, "thorough"), 0o755)
+		_ = os.WriteFile(filepath.Join(evDir, "thorough", fmt.Sprintf("%s.seed%d.json", id, seed)), b, 0o644)
+	}
 	fmt.Printf("check %s tier=%s seed=%d: runs=%d distinct_interleavings=%d nontrivial=%d sim_time=%.0fs steps=%d new_violations=%d known_findings=%d wall=%.1fs\n",
 		id, tier, seed, agg.Runs, len(inter), len(nontriv), agg.SimSeconds, agg.Steps, nNew, len(knownHit), wall)
 	return exit
